@@ -35,6 +35,10 @@ FUN = "spsdk/sbfile/sb31/functions.py"
 CON = "spsdk/sbfile/sb31/constants.py"
 
 BAD = 999999
+# Sentinel for constants the model uses as a SIZE (alignment, chunk length, tail / description / header length): an unreadable size must make
+# the model wrong but CHEAP -- 999999 as an alignment made every load-type command 1 MB long and the native model took hours (seeded change
+# C05d: `align_block(data, 16)` replaced by hand-written padding).  0 is never a right value for any of them (the agreement theorems fail).
+BADSIZE = 0
 _SIZE = {"x": 1, "c": 1, "b": 1, "B": 1, "?": 1, "h": 2, "H": 2, "i": 4, "I": 4, "l": 4, "L": 4, "q": 8, "Q": 8}
 HASHLEN = {"SHA1": 20, "SHA256": 32, "SHA384": 48, "SHA512": 64, "MD5": 16, "SM3": 32}
 # hash algorithms are represented by their digest length, byte orders by their names
@@ -748,15 +752,16 @@ def gen_Sb31Consts():
             if nm == callee:
                 for k in n.keywords:
                     if k.arg == kw:
-                        return ev(env, k.value, cname)
+                        return ev(env, k.value, cname, default=BADSIZE)
                 if len(n.args) > pos:
-                    return ev(env, n.args[pos], cname)
-        return BAD
+                    return ev(env, n.args[pos], cname, default=BADSIZE)
+        note(f"{cname}.{fname}: no call of {callee}", "size sentinel 0")
+        return BADSIZE
 
     d("loadAlign", call_arg(cmd, eC, "CmdLoadBase", "export", "align_block", "alignment", 1), "CmdLoadBase.export align_block")
     d("keyBlobAlign", call_arg(cmd, eC, "CmdLoadKeyBlob", "export", "align_block", "alignment", 1), "CmdLoadKeyBlob.export align_block")
     # hash-locking tail: the constant byte string export() appends (`bytes(64)`, `b"\0" * 64`, a class constant ...)
-    tail = BAD
+    tail = BADSIZE
     hl = _fun(_cls(cmd, "CmdLoadHashLocking"), "export")
     for n in ast.walk(hl) if hl is not None else []:
         if isinstance(n, (ast.Call, ast.BinOp, ast.Attribute, ast.Name)):
@@ -801,11 +806,11 @@ def gen_Sb31Consts():
     ver = str(cval(eI, H, "FORMAT_VERSION", f"{BAD}.{BAD}", str)).split(".")
     d("hdrVersionMajor", ver[0] if ver[0].isdigit() else BAD)
     d("hdrVersionMinor", ver[1] if len(ver) > 1 and ver[1].isdigit() else BAD)
-    d("descLen", cval(eI, H, "DESCRIPTION_LENGTH"), "SecureBinary31Header.DESCRIPTION_LENGTH")
+    d("descLen", cval(eI, H, "DESCRIPTION_LENGTH", BADSIZE), "SecureBinary31Header.DESCRIPTION_LENGTH")
     hw = widths_of(fm["fmtHeader"])
     header_size = sum(hw[1]) if hw else BAD
     d("headerSize", header_size, "calcsize(HEADER_FORMAT)")
-    d("chunkLen", cval(eI, "SecureBinary31Commands", "DATA_CHUNK_LENGTH"), "SecureBinary31Commands.DATA_CHUNK_LENGTH")
+    d("chunkLen", cval(eI, "SecureBinary31Commands", "DATA_CHUNK_LENGTH", BADSIZE), "SecureBinary31Commands.DATA_CHUNK_LENGTH")
 
     # functions over the finite set of hash lengths: executed, emitted as if-chains
     itI = Interp(img, {"get_hash_length": lambda h: h, "get_hash": None}, cls=H)
